@@ -738,8 +738,8 @@ def run(ctx: vlib.Ctx):
         "values are trees (no instance occurs twice); an instance has the declared class, one of the union's member classes, a "
         "variant of the discriminator, or (12% of plain positions) a subclass with the same keyword-adding options; a variant "
         "whose to_dict would not accept the keywords of the declared class (TypeError, a crash) is not generated",
-        "union members are dataclasses; each field name has one type per schema; hooks do not raise; a discriminator without a "
-        "field is generated only where the mixin has no format-specific method (the /repo defect reported in round 3)",
+        "union members are dataclasses; each field name has one type per schema; hooks do not raise (discriminators without a "
+        "field are generated for every mixin kind since /repo 233f7d4 repaired the inherited per-format method)",
         "deserialization: events of union members / discriminator variants that were tried and discarded concern no instance of "
         "the result and are not violations (property text: 'every instance that ends up in a deserialization result'); the "
         "model reproduces them exactly",
@@ -856,6 +856,10 @@ def run(ctx: vlib.Ctx):
                             L.subclass_positions(schema, root_ty, value, sp_)
                             ctx.hist("subclass_instances", ("with" if sp_ else "without") + " subclass instance at a parent-typed position")
                         ctx.hist("events_per_case", str(min(len(res["log"]) // 4 * 4, 40)))
+                        if verdict is None:
+                            # only log / ok / exc / result are needed later (correspondence); keep the process small
+                            res.pop("out", None)
+                            res.pop("obs", None)
                         (ser_cases if direction == "ser" else de_cases).append((case, res, verdict))
                         if verdict is not None:
                             what, sig = verdict
